@@ -144,6 +144,21 @@ pub fn c13(cx: &mut Ctx) {
             }
         }
     }
+    // hosts that are IP literals (no "domain"): two different addresses are two different hosts
+    for o in ["http://10.0.0.5/private", "http://[::1]/o", "https://192.168.1.1:8443/o"] {
+        for t in ["http://169.254.169.254/latest/meta-data", "http://10.0.0.5/other", "//10.0.0.6/y", "http://[::2]/x", "http://[::1]:81/x", "https://192.168.1.1/s", "http://a.test/named", "/same"] {
+            for policy in ["never", "samehost"] {
+                cx.case("iphost");
+                if cx.rec.new_flow(&format!("GET HTTP/1.1 {} {}", o, super::hdrs(&[("authorization", b"Basic c2VjcmV0"), ("cookie", b"sid=abc"), ("x-keep", b"1")]))) != "ok" { continue; }
+                let h = Hop { status: 302, locations: vec![t.as_bytes().to_vec()], body: false };
+                if !exchange_to_redirect(cx, &h) { continue; }
+                if !cx.op(&format!("follow {}", policy)).starts_with("flow ") { continue; }
+                cx.op("uri?");
+                cx.op("proceed");
+                cx.op("write 65536");
+            }
+        }
+    }
     // the caller gives the redirected flow fresh credentials / cookies of its own: the inherited ones stay suppressed
     for t1 in ["http://b.test/t", "https://a.test/t", "/same"] {
         for policy in ["never", "samehost"] {
